@@ -78,10 +78,11 @@ pub open spec fn x_step(s: XState, data: Seq<u8>, max: int) -> (XState, Option<A
         let start = x_start(s, data);
         let fd = b.subrange(start, b.len() as int);
         let used = spec_consumed(fd, max);
-        if used > 0 {
-            let fp = spec_fpv(spec_split(fd, max));
-            (XState { buf: b, off: start + used, done: fp is Some }, fp)
-        } else { (XState { buf: b, off: s.off, done: false }, None) }
+        // frames are consumed only once they yield a fingerprint; until then every call looks at
+        // all complete frames received so far
+        let fp = if used > 0 { spec_fpv(spec_split(fd, max)) } else { None };
+        if fp is Some { (XState { buf: b, off: start + used, done: true }, fp) }
+        else { (XState { buf: b, off: s.off, done: false }, None) }
     }
 }
 /// the one-shot fingerprint of a byte string (extract_akamai_fingerprint_from_bytes)
